@@ -552,9 +552,13 @@ type c19compiler struct {
 	s     *sim.Sim
 	slow  bool
 	stall *int // how many compilations may still stall (nil: none)
+	pre   time.Duration // start-up latency before the file is read
 }
 
 func (c c19compiler) CompileFile(path string) ([]byte, error) {
+	if c.pre > 0 {
+		c.s.Sleep(c.pre) // the compiler takes a moment to start before it opens the file
+	}
 	src, err := os.ReadFile(path)
 	if err != nil {
 		return nil, err
@@ -765,7 +769,11 @@ func c19Library(s *sim.Sim, p *sim.Params) {
 		s.Probe("stalling-compile-run")
 	}
 	stallBudget := stalls
-	rm := hotreload.NewReloadManager([]string{dir}, c19compiler{s: s, slow: slow, stall: &stalls}, sv, hotreload.WithOnReload(func(e hotreload.ReloadEvent) { events = append(events, e) }))
+	pre := time.Duration(0)
+	if slow && s.Choose(sim.SWork, 2) == 0 {
+		pre = 20 * time.Millisecond
+	}
+	rm := hotreload.NewReloadManager([]string{dir}, c19compiler{s: s, slow: slow, stall: &stalls, pre: pre}, sv, hotreload.WithOnReload(func(e hotreload.ReloadEvent) { events = append(events, e) }))
 	ctx, cancel := sim.WithCancel(context.Background())
 	defer cancel()
 	if err := rm.Start(ctx); err != nil {
@@ -790,7 +798,7 @@ func c19Library(s *sim.Sim, p *sim.Params) {
 			os.RemoveAll(file)
 		}
 		blip := !slow && (e.kind == "valid" || e.kind == "recreated") && s.Choose(sim.SFault, 4) == 0
-		typo := !slow && !blip && (e.kind == "valid" || e.kind == "recreated") && s.Choose(sim.SFault, 4) == 0
+		typo := (!slow || (pre > 0 && stallBudget == 0)) && !blip && (e.kind == "valid" || e.kind == "recreated") && s.Choose(sim.SFault, 4) == 0
 		switch {
 		case typo:
 			// the save lands just before a poll; at the very instant the debounce timer of that
@@ -801,7 +809,7 @@ func c19Library(s *sim.Sim, p *sim.Params) {
 			tick := 500 * time.Millisecond
 			s.Sleep(tick - s.Now()%tick - 10*time.Millisecond)
 			put(content, e.mtime)
-			s.Sleep(210 * time.Millisecond)
+			s.Sleep(210*time.Millisecond + pre/2) // (with a start-up latency: while the compiler is starting)
 			put(c19content("parse-error", e.version), "")
 			s.Sleep(60 * time.Millisecond)
 			put(content, "")
